@@ -471,12 +471,20 @@ struct WrapHidden<T: Serialize> {
     after: u8,
 }
 
-/// Display impl that emits its text in `pieces` separate `write_str` calls.
+/// Display impl that emits its text piecewise: even pieces in one `write_str` call each, odd pieces scalar by
+/// scalar through `write_char` (what `char`'s own Display, `{c}` and fill characters use).
 struct Pieces(Vec<String>);
 impl std::fmt::Display for Pieces {
     fn fmt(&self, f: &mut std::fmt::Formatter) -> std::fmt::Result {
-        for p in &self.0 {
-            f.write_str(p)?;
+        use std::fmt::Write;
+        for (i, p) in self.0.iter().enumerate() {
+            if i % 2 == 1 {
+                for c in p.chars() {
+                    f.write_char(c)?;
+                }
+            } else {
+                f.write_str(p)?;
+            }
         }
         Ok(())
     }
@@ -491,7 +499,8 @@ impl Serialize for Collected<'_> {
 struct Fancy(i64, String);
 impl std::fmt::Display for Fancy {
     fn fmt(&self, f: &mut std::fmt::Formatter) -> std::fmt::Result {
-        write!(f, "{:>12}|{:08.3}|{}|{:?}", self.0, self.0 as f64 / 7.0, self.1, self.1)
+        let c = self.1.chars().next().unwrap_or('\u{2615}');
+        write!(f, "{:>12}|{:08.3}|{}|{:?}|{}|{:\u{e9}^7}", self.0, self.0 as f64 / 7.0, self.1, self.1, c, c)
     }
 }
 struct CollectedF<'a>(&'a Fancy);
@@ -527,6 +536,63 @@ impl Serialize for DeclaredLen {
             s.serialize_seq(Some(self.0))?.end()
         }
     }
+}
+
+/// `skip_field` is a defaulted method of serde's struct serializers (what a derived
+/// `skip_serializing_if` calls when the predicate holds): a skipped field contributes no bytes.
+struct Skipper {
+    a: u8,
+    b: Option<u16>,
+    c: String,
+    variant: bool,
+}
+impl Serialize for Skipper {
+    fn serialize<S: serde::Serializer>(&self, s: S) -> Result<S::Ok, S::Error> {
+        use serde::ser::{SerializeStruct, SerializeStructVariant};
+        let n = if self.b.is_some() { 3 } else { 2 };
+        if self.variant {
+            let mut st = s.serialize_struct_variant("SkipE", 5, "V5", n)?;
+            st.serialize_field("a", &self.a)?;
+            match &self.b {
+                Some(_) => st.serialize_field("b", &self.b)?,
+                None => st.skip_field("b")?,
+            }
+            st.serialize_field("c", &self.c)?;
+            st.end()
+        } else {
+            let mut st = s.serialize_struct("Skipper", n)?;
+            st.serialize_field("a", &self.a)?;
+            match &self.b {
+                Some(_) => st.serialize_field("b", &self.b)?,
+                None => st.skip_field("b")?,
+            }
+            st.serialize_field("c", &self.c)?;
+            st.end()
+        }
+    }
+}
+#[derive(Serialize)]
+struct SkipDerived {
+    id: u8,
+    #[serde(skip_serializing_if = "Option::is_none")]
+    note: Option<u16>,
+    #[serde(skip_serializing_if = "Vec::is_empty")]
+    list: Vec<u8>,
+    #[serde(skip)]
+    #[allow(dead_code)]
+    never: u32,
+    seq: u32,
+}
+#[derive(Serialize)]
+enum SkipDerivedE {
+    #[allow(dead_code)]
+    A,
+    B {
+        id: u8,
+        #[serde(skip_serializing_if = "Option::is_none")]
+        note: Option<u16>,
+        seq: u32,
+    },
 }
 
 /// exact-size iterator through collect_seq: must be framed like a sequence
@@ -686,6 +752,54 @@ fn c02_extras(t: &mut Tctx) {
                 format!("collect_str of formatted text {:?} differs from its string encoding", f.to_string()),
                 vec![kv("kind", "collect_str_fancy"), kv("text_hex", crate::json::hex(f.to_string().as_bytes()))],
             ),
+        }
+        // (d) skipped struct fields contribute no bytes (hand-written skip_field and derived skip_serializing_if)
+        {
+            let a = t.rng.next() as u8;
+            let b = if t.rng.chance(1, 2) { Some(t.rng.next() as u16) } else { None };
+            let c = gen_string(&mut t.rng, 6);
+            let list: Vec<u8> = if t.rng.chance(1, 2) { Vec::new() } else { t.rng.bytes(3) };
+            let seq = gen_uint(&mut t.rng, 32) as u32;
+            t.st.count("c02_skip_field_cases");
+            let mut plain = vec![a];
+            if let Some(x) = b {
+                plain.push(1);
+                spec::varint(x as u128, &mut plain);
+            }
+            plain.extend_from_slice(&spec::encode(&Val::Str(c.clone())));
+            let mut var = vec![5u8];
+            var.extend_from_slice(&plain);
+            let mut der = vec![a];
+            if let Some(x) = b {
+                der.push(1);
+                spec::varint(x as u128, &mut der);
+            }
+            if !list.is_empty() {
+                der.extend_from_slice(&spec::encode(&Val::Bytes(list.clone())));
+            }
+            spec::varint(seq as u128, &mut der);
+            let mut dere = vec![1u8, a];
+            if let Some(x) = b {
+                dere.push(1);
+                spec::varint(x as u128, &mut dere);
+            }
+            spec::varint(seq as u128, &mut dere);
+            let got = catch(|| {
+                (
+                    postcard::to_allocvec(&Skipper { a, b, c: c.clone(), variant: false }),
+                    postcard::to_allocvec(&Skipper { a, b, c: c.clone(), variant: true }),
+                    postcard::to_allocvec(&SkipDerived { id: a, note: b, list: list.clone(), never: 9, seq }),
+                    postcard::to_allocvec(&SkipDerivedE::B { id: a, note: b, seq }),
+                )
+            });
+            let okay = matches!(&got, Ok((Ok(w), Ok(x), Ok(y), Ok(z))) if *w == plain && *x == var && *y == der && *z == dere);
+            if !okay {
+                t.st.violation(
+                    "C02:skipped-field-emits-bytes",
+                    format!("a struct with a skipped field (b = {:?}, list = {:?}) is not the concatenation of its serialised fields: {:?}", b, list, got.map(|(w, x, y, z)| (w.map(|v| hexs(&v)).ok(), x.map(|v| hexs(&v)).ok(), y.map(|v| hexs(&v)).ok(), z.map(|v| hexs(&v)).ok()))),
+                    vec![kv("kind", "skip_field"), kv("b", format!("{:?}", b))],
+                );
+            }
         }
         // (c) usize / isize encode like u64 / i64 of the same number
         let u = gen_uint(&mut t.rng, 64) as u64;
